@@ -208,6 +208,8 @@ def ascii_table(
         if isinstance(value, (numpy.timedelta64,)):
             from types import SimpleNamespace
 
+            if numpy.isnat(value):
+                return None
             seconds = value / numpy.timedelta64(1000000000, "ns")
             return SimpleNamespace(
                 months=0, days=int(seconds // 86400), nanoseconds=(seconds % 86400) * 1e9
